@@ -245,11 +245,17 @@ def latest_cases(chk, drv, work):
         layname = rng.choice(sorted(STD4))
         base = np.random.RandomState(it).normal(size=npts)
         cfile = os.path.join(work, 'c_%d.json' % it)
-        write_constants(cfile, npts)
+        # every fourth folder: the file gives rp (the peak of the profiles) away from the middle of the radial domain (finding F25)
+        file_kw = {'rp': [4.25, 9.5][it // 4 % 2]} if it % 4 == 2 else {}
+        write_constants(cfile, npts, **file_kw)
         # (times of more than six digits included: the names are then no longer ordered like the times; finding F10, repaired)
         # documented keyword overrides of the set-up (the radial / velocity domain): what the run used is what the parameter file must
         # give back at the restart
         over = rng.choice([{}, {}, {'rMin': 1.0, 'rMax': 9.0}, {'rMax': 11.5}, {'vMax': 6.0}, {'rMin': 0.5, 'vMax': 8.25}])
+        if it % 4 == 0:
+            over = [{'rp': 5.0}, {'rMin': 1.0, 'rMax': 9.0, 'rp': 3.5}, {'rp': 10.25, 'vMax': 6.0}][it // 4 % 3]
+        elif it % 4 == 2:
+            over = [{}, {'vMax': 6.0}][it // 8 % 2]
         attrs_w = {}
         stale_params = it % 3 == 1
         aux_times = sorted({max(times) + 7, min(times) + 1, rng.choice(times) + 3, 5} - set(times))
@@ -320,6 +326,15 @@ def latest_cases(chk, drv, work):
                          dict(case, rank=ri), expected={'first_last': [[e[0], e[-1]] for e in eta_w]}, actual={'first_last': [[e[0], e[-1]] for e in o['eta']]})
                 break
         cw = attrs_w.get(0)
+        # what the first run used: the keyword overrides, then the numbers of the file, (rp: the middle of the domain when not given)
+        if cw:
+            given = dict(json.load(open(cfile)), **over)
+            exp_c = dict(given)
+            exp_c.setdefault('rp', 0.5 * (given.get('rMin', 0.1) + given.get('rMax', 14.5)))
+            badc = sorted(k for k, v in exp_c.items() if k in cw and cw[k] != v)
+            if badc:
+                chk.fail('C18:setup-constants', 'setupCylindricalGrid does not use the constants of the parameter file / the keyword overrides: %s' % (
+                    ', '.join('%s: %r, used %r' % (k, exp_c[k], cw[k]) for k in badc)), dict(case, file=file_kw))
         for ri, o in enumerate(r.values()):
             bad = [k for k in cw if k in o['constants'] and repr(o['constants'][k]) != repr(cw[k])] if cw else []
             if bad:
@@ -403,8 +418,86 @@ SYMBOLIC = {
     "eps": 1e-6, "eps0": 8.854187817e-12, "kN0": 0.055, "kTi": 0.27586, "kTe": "kTi", "deltaRTi": 1.45, "deltaRTe": "deltaRTi",
     "deltaRN0": "2.0*deltaRTe", "deltaR": "4.0*deltaRN0/deltaRTi", "CTi": 1.0, "CTe": "CTi", "m": 15, "n": -11, "iotaVal": 0.8,
     "npts": [8, 8, 8, 8], "splineDegrees": [3, 3, 3, 3], "dt": 2}
+RP_DEPS = {"rMin+4.5": ["rMin"], "rMax-deltaRTi": ["rMax", "deltaRTi"], "0.25*(rMin+rMax)": ["rMin", "rMax"]}
 DEPS = {"zMax": ["R0"], "vMin": ["vMax"], "kTe": ["kTi"], "deltaRTe": ["deltaRTi"], "deltaRN0": ["deltaRTe"],
         "deltaR": ["deltaRN0", "deltaRTi"], "CTe": ["CTi"]}
+
+
+def rp_setter_cases(chk, drv, fn):
+    """the setters of rMin / rMax (which move rp), set_defaults and an rp given in the file: the real parser against
+    Model/Checkpoint.lean getConstantsRp (values scaled by 16000 so that the model computes in integers)"""
+    from fractions import Fraction
+    from pygyro.initialisation.constants import get_constants
+    from pygyro.initialisation.default_constants import defaults
+    rng = chk.rng
+    S = 16000
+    dfl = [[k, int(round(v * S))] for k, v in defaults.items() if k in ('rMin', 'rMax', 'kN0', 'deltaRTi') and abs(v * S - round(v * S)) < 1e-9]
+    exprs = {'rMin+4.5': (['rMin'], 4.5), 'rMax-2.25': (['rMax'], None), 'rMin+rMax': (['rMin', 'rMax'], 0.0), 'deltaRTi+rMin+0.5': (['deltaRTi', 'rMin'], 0.5)}
+    del exprs['rMax-2.25']                      # the model's expressions are sums
+    for it in range(chk.n(60, 600)):
+        items = []
+        ends = [('both', 'both', 'rMin', 'rMax', 'none')[it % 5]][0]
+        if ends in ('both', 'rMin'):
+            items.append(('rMin', rng.choice([0.125, 0.5, 1.0, 2.25])))
+        if ends in ('both', 'rMax'):
+            items.append(('rMax', rng.choice([8.0, 9.5, 12.75, 20.0])))
+        kind = ('number', 'absent', 'expr', 'number')[it // 5 % 4]
+        if kind == 'number':
+            items.append(('rp', rng.choice([3.25, 5.0, 6.5, 11.0])))
+        elif kind == 'expr':
+            ok = [e for e, (d, _) in exprs.items() if all(x in dict(items) or x == 'deltaRTi' for x in d)]
+            if ok:
+                items.append(('rp', rng.choice(ok)))
+        items.append(('deltaRTi', rng.choice([1.5, 2.0])))
+        if rng.random() < 0.5:
+            items.append(('kN0', rng.choice([0.0625, 0.125])))
+        items.append(('npts', [8, 8, 8, 8]))
+        rng.shuffle(items)
+        json.dump(dict(items), open(fn, 'w'))
+        try:
+            c = get_constants(fn)
+            real = {k: getattr(c, k) for k in ('rMin', 'rMax', 'rp', 'deltaRTi', 'kN0')}
+        except AssertionError:
+            real = None
+        data = []
+        for k, v in items:
+            if k == 'npts':
+                continue
+            if isinstance(v, str):
+                data.append([k, exprs[v][0], int(exprs[v][1] * S)])
+            else:
+                data.append([k, None, int(v * S)])
+        mo = drv.call({'op': 'constants_rp', 'data': data, 'defaults': dfl})
+        case = {'file_order': [k for k, _ in items], 'file': {k: v for k, v in items if k != 'npts'}}
+        fixed = mo['fixed']
+        if (real is None) != (fixed is None):
+            chk.diff('get_constants refuses / accepts unlike the model with the setters', case, fixed, real)
+            continue
+        if real is not None:
+            bad = sorted(k for k in real if fixed.get(k) is None or abs(Fraction(real[k]) - Fraction(fixed[k], S)) > Fraction(1, 10 ** 12))
+            if bad:
+                # which side is right: the property says what the file gives is what the constants are
+                given = {k: v for k, v in items if not isinstance(v, str) and k in real}
+                wrong = sorted(k for k in given if real[k] != given[k])
+                if wrong:
+                    chk.fail('C18:constants-value', 'a constant given as a number in the parameter file is not reproduced by the parser (%s)' % (
+                        ', '.join('%s: file %r, parser %r' % (k, given[k], real[k]) for k in wrong)), case)
+                else:
+                    chk.diff('constants with the setters of rMin / rMax', case, {k: fixed.get(k) for k in bad}, {k: real[k] for k in bad})
+            # oracle without the model: rp is what the file says, else the middle of the domain
+            d = dict(items)
+            if isinstance(d.get('rp'), str):
+                deps, cst = exprs[d['rp']]
+                exp_rp = sum(real[x] for x in deps) + cst
+            elif 'rp' in d:
+                exp_rp = d['rp']
+            else:
+                exp_rp = 0.5 * (real['rMin'] + real['rMax'])
+            if real['rp'] != exp_rp:
+                chk.fail('C18:constants-rp', 'rp is not what the parameter file gives (or, without rp in the file, the middle of the domain)',
+                         case, expected=exp_rp, actual=real['rp'])
+        chk.count('constants with setters: ends %s, rp %s' % (ends, kind))
+        chk.case(('rp', tuple(k for k, _ in items), kind), nontrivial=True, sample=dict(case, rp=real and real['rp']) if it == 0 else None)
 
 
 def constants_cases(chk, drv, work):
@@ -432,6 +525,12 @@ def constants_cases(chk, drv, work):
                    "deltaR": rng.choice(["4.0*deltaRN0/deltaRTi", "deltaRN0/deltaRTi*4", "(4.0*deltaRN0)/(deltaRTi)", "deltaRN0/(.25*deltaRTi)"]),
                    "vMin": rng.choice(["-vMax", "-1*vMax", "0-vMax", "-(vMax)"]), "zMax": rng.choice(["R0*2*pi", "2*pi*R0", "R0*(pi+pi)", "pi*R0/.5"])}
             items = [(k, alt.get(k, v)) for k, v in items]
+        rp_given = None
+        if it % 4 == 2:
+            # rp (the peak of the profiles) given in the file, as a number or an expression: a constant like any other, although the
+            # setters of rMin and rMax move it to the middle of the domain (finding F25)
+            rp_given = [5.0, "rMin+4.5", 3.25, "rMax-deltaRTi", "0.25*(rMin+rMax)"][it // 4 % 5]
+            items.append(("rp", rp_given))
         zeros = it % 7 == 3
         if zeros:
             # constants that are exactly zero (no perturbation, an axisymmetric mode, a flat density profile): a value like any other
@@ -464,17 +563,22 @@ def constants_cases(chk, drv, work):
         pend = {k: v for k, v in items if isinstance(v, str)}
         while pend:
             for k in list(pend):
-                if all(d in env for d in DEPS[k]):
+                if all(d in env for d in (RP_DEPS[pend[k]] if k == 'rp' else DEPS[k])):
                     env[k] = eval(pend.pop(k), {'pi': _m.pi, '__builtins__': {}}, dict(env))
-        badk = sorted(k for k in DEPS if got.get(k) != env[k])
+        env.setdefault('rp', 0.5 * (env['rMin'] + env['rMax']))
+        badk = sorted(k for k in list(DEPS) + ['rp'] if got.get(k) != env[k])
         if badk:
             chk.fail('C18:constants-expr', 'a symbolic entry of the parameter file does not equal its expression evaluated with the values of the file',
                      {'order': [k for k, _ in items], 'values': {k: v for k, v in items if isinstance(v, float)}},
                      expected={k: env[k] for k in badk}, actual={k: got.get(k) for k in badk})
         if it % 5 != 0 and it % 3 != 2 and not zeros:
-            refc = dict(ref, CN0=given['CN0']) if 'CN0' in given else ref
-            if got != refc:
-                bad = sorted(k for k in refc if got.get(k) != refc[k])
+            refc = dict(ref, CN0=given['CN0']) if 'CN0' in given else dict(ref)
+            if rp_given is not None:
+                refc['rp'] = env['rp']
+                if 'CN0' not in given:
+                    refc.pop('CN0')                    # CN0 is computed from rp (compared in the print -> parse round trip)
+            bad = sorted(k for k in refc if got.get(k) != refc[k])
+            if bad:
                 chk.fail('C18:constants-order', 'the constants depend on the order of the keys in the parameter file', {'order': [k for k, _ in items]},
                          expected={k: refc[k] for k in bad}, actual={k: got.get(k) for k in bad})
         # print -> parse round trip, through the real setupSave
@@ -505,11 +609,12 @@ def constants_cases(chk, drv, work):
             chk.fail('C18:constants-roundtrip-order', 'a permuted initParams.json does not reproduce the constants', {'keys': bad})
         shutil.rmtree(folder, ignore_errors=True)
         # correspondence: the dependency-ordered parser terminates / refuses as the model says
-        mo = drv.call({'op': 'constants', 'data': [[k, DEPS.get(k) if isinstance(v, str) else None] for k, v in items]})
+        mo = drv.call({'op': 'constants', 'data': [[k, (RP_DEPS[v] if k == 'rp' else DEPS.get(k)) if isinstance(v, str) else None] for k, v in items]})
         if not mo['ok']:
             chk.diff('model refuses a well-founded parameter file', {'order': [k for k, _ in items]}, mo)
         chk.count('constants permutations')
         chk.case(('const', tuple(k for k, _ in items)), nontrivial=True, sample={'order': [k for k, _ in items][:8]} if it == 0 else None)
+    rp_setter_cases(chk, drv, fn)
     # refusals: cyclic / undefined reference
     for bad_items, why in (([("a_", 1)], None),
                            ([("kTe", "kTi"), ("kTi", "kTe")], 'cycle'),
@@ -695,7 +800,7 @@ def run(chk):
                 'latest: checkpoint times of different digit counts; constants: distinct key orders; driver: distinct '
                 '(saveStep, N, M, ranks first / restart / unsplit)')
     prog = regenerate(chk)
-    chk.proof_side(build=not getattr(chk, 'no_build', False), extra_props=('C18Extra',))
+    chk.proof_side(build=not getattr(chk, 'no_build', False), extra_props=('C18Extra', 'C18Rp'))
     work = tempfile.mkdtemp(prefix='pgc18_')
     drv = common.LeanDriver('C17.lean')
     state = {}
@@ -757,7 +862,7 @@ def chk_finish(chk, search):
         'VParallelAdvection.gridStep overwrites parGradVals, solveEquation overwrites phi, getPerturbedRho overwrites rho; '
         'exercised end to end by the split / unsplit driver runs (fresh np.empty arrays after the restart)',
         'a loadable folder (initParams.json present) holds at least one grid checkpoint (a fresh run writes t=0 right after setupSave)',
-        'constants: the derived attribute rp is recomputed by the rMin/rMax setters; parameter files that set rp independently are outside the claim']
+        'constants: rp is the middle of [rMin, rMax] unless the parameter file or a keyword gives it (Model/Checkpoint.lean, getConstantsRp)']
     chk.trusted = list(chk.trusted) + ['harness/translate_driver.py (AST -> Generated/TimeLoop.lean): refuses unknown statement shapes; '
                                        'its output is run against the real driver (files written, lines printed) on every run']
     return chk.finish(search)
